@@ -162,6 +162,8 @@ func corrRender(seed uint64, n int, tier string, out string, replay string) {
 		rep.Traces++
 		// parse order: duplicate defines, the last parsed template wins
 		defineOrderCase(m, rep, r, seed, i)
+		// execution order: templates with side effects on the shared values
+		execOrderCase(m, rep, r, seed, i)
 	}
 	renderProbes(rep, seed)
 	knownOrderFindings(rep, tmp, seed)
@@ -215,6 +217,52 @@ func defineOrderCase(m *Model, rep *Report, r *Rng, seed uint64, idx int) {
 	rep.H("define-order")
 	if got != want {
 		rep.Issue(Issue{Kind: "disagreement", Fingerprint: "C05:model:sortTemplates", What: "the template that wins a duplicate define differs from the model's parse order", Case: map[string]any{"keys": keys}, Model: map[string]any{"order": order, "winner": want}, Impl: got, Seed: seed, Index: idx})
+	}
+}
+
+// execOrderCase: every template appends its own path to a list in the shared .Values and prints the
+// list; the longest list is the order in which the engine executed the templates, which must be
+// the model's order (and the same on every render).
+func execOrderCase(m *Model, rep *Report, r *Rng, seed uint64, idx int) {
+	paths := []string{"templates/a.yaml", "templates/b.yaml", "templates/sub/a.yaml", "templates/sub/deep/x.yaml", "templates/z.yaml", "templates/B.yaml", "templates/sub/b.yaml", "templates/c.yaml", "templates/0.yaml"}
+	c := &chart.Chart{Metadata: &chart.Metadata{APIVersion: "v2", Name: "p", Version: "0.1.0"}}
+	var keys []any
+	for _, p := range paths {
+		if r.Chance(65) {
+			full := "p/" + p
+			c.Templates = append(c.Templates, &chart.File{Name: p, Data: []byte("{{- $_ := set .Values \"trail\" (printf \"%s %s\" (default \"\" .Values.trail) \"" + full + "\") -}}\ntrail: {{ .Values.trail | quote }}\n")})
+			keys = append(keys, full)
+		}
+	}
+	if len(keys) < 3 {
+		return
+	}
+	w := m.Query(map[string]any{"op": "sortTemplates", "keys": keys})
+	var want []string
+	for _, k := range w["order"].([]any) {
+		want = append(want, k.(string))
+	}
+	for rep_ := 0; rep_ < 3; rep_++ {
+		vals, _ := chartutil.ToRenderValues(c, map[string]any{}, chartutil.ReleaseOptions{Name: "r", Namespace: "n"}, nil)
+		var files map[string]string
+		var err error
+		safely(func() { files, err = engine.Render(c, vals) })
+		if err != nil {
+			rep.H("exec-order-render-error")
+			return
+		}
+		longest := ""
+		for _, v := range files {
+			if len(v) > len(longest) {
+				longest = v
+			}
+		}
+		got := strings.Fields(strings.Trim(strings.TrimSpace(strings.TrimPrefix(strings.TrimSpace(longest), "trail:")), "\""))
+		rep.H("exec-order")
+		if canon(got) != canon(want) {
+			rep.Issue(Issue{Kind: "disagreement", Fingerprint: "C05:model:exec-order", What: "the order in which the templates were executed differs from the model's (sorted) order", Case: map[string]any{"keys": keys}, Model: want, Impl: got, Seed: seed, Index: idx})
+			return
+		}
 	}
 }
 
